@@ -835,3 +835,377 @@ func checkNoLostReceiverWrites(c *report.Ctx) {
 	}
 	c.Check("R-NOEFFECT", "methods/no-write-to-a-copied-receiver", "no method with a value receiver assigns a field of its receiver (the assignment would be lost: a Clear that clears a copy leaves the previous generation's entries in place)", len(bad) == 0 && n >= 1, pos, n, "value-receiver methods on structs: %d; assigning receiver fields: %v", n, uniq(bad))
 }
+
+// ---------------------------------------------------------------------------------------------------------------
+// Rules added after the tenth blind round (per area again).
+
+func init() {
+	add := func(id string, fs ...func(*report.Ctx)) { round5Rules[id] = append(round5Rules[id], fs...) }
+	add("C18", checkWhoStoresInitEnvironment, checkRestoreTimeoutCancelsAtOnce)
+	add("C16", checkWhoStoresInitEnvironment)
+	add("C05", checkTeardownWheneverAgentsExist)
+	add("C09", checkTeardownWheneverAgentsExist)
+	add("C15", checkAgentDelegatorsPassArgumentsOn)
+	add("C13", checkAgentDelegatorsPassArgumentsOn, checkMiddlewareLeavesHeadersAlone)
+	add("C07", checkSenderClosesItsChannel)
+	add("C01", checkDirectInvokePayloadIsTheBody)
+	add("C17", checkDirectInvokePayloadIsTheBody, checkNoContentLengthAnnounced, checkChunksBoundedByChunkSize, checkTooLargeMadeBySinkOnly)
+	add("C14", checkTooLargeMadeBySinkOnly, checkNoContentLengthAnnounced)
+	add("C20", checkRuntimeAPIServerPlain)
+	add("C12", checkRuntimeAPIServerPlain)
+}
+
+var round11Text = map[string]string{
+	"C18": "Round 11: only the non-caching accept stores credentials into the environment; a restore-hook timeout cancels the init flow at once.",
+	"C16": "Round 11: only the accept functions store the init request's variables into the environment.",
+	"C05": "Round 11: with extensions present the graceful teardown runs whether or not the runtime was started.",
+	"C09": "Round 11: with extensions present the graceful teardown runs whether or not the runtime was started.",
+	"C15": "Round 11: the agents' delegating methods hand their arguments to the state unchanged (an error keeps its identity).",
+	"C13": "Round 11: the agents' delegating methods hand their arguments on unchanged; middleware writes nothing into request headers.",
+	"C07": "Round 11: a channel a goroutine sends on is closed by nobody else.",
+	"C01": "Round 11: the direct-invoke event is the request body itself.",
+	"C17": "Round 11: the direct-invoke event is the request body itself; no Content-Length is announced on a reply; chunks never exceed the chunk size; only the reply sink makes an oversize error.",
+	"C14": "Round 11: only the reply sink judges a response too large.",
+	"C20": "Round 11: the Runtime API server is a plain http.Server (handler and connection context only).",
+	"C12": "Round 11: the Runtime API server is a plain http.Server.",
+}
+
+var _ = func() bool {
+	for id, t := range round11Text {
+		round5Text[id] += " " + t
+	}
+	return true
+}()
+
+// checkWhoStoresInitEnvironment (C18, C16): StoreEnvironmentVariablesFromInit puts the AWS credentials into the process
+// environment - right without init caching, wrong with it (there the token and the credentials endpoint go in
+// instead). Each of the two stores is made by exactly the accept function of its mode, and by nobody else.
+func checkWhoStoresInitEnvironment(c *report.Ctx) {
+	a := siteFns(callSites(c, "L/rapidcore/env.Environment.StoreEnvironmentVariablesFromInit"))
+	b := siteFns(callSites(c, "L/rapidcore/env.Environment.StoreEnvironmentVariablesFromInitForInitCaching"))
+	ok := strings.Join(a, ",") == "L/rapid.rapidContext.acceptInitRequest" && strings.Join(b, ",") == "L/rapid.rapidContext.acceptInitRequestForInitCaching"
+	c.Check("R-WHO", "L/rapidcore/env.Environment/who-stores-the-init-variables", "the init request's variables (and, without init caching only, its credentials) are stored into the environment by the accept function of that mode and by nobody else", ok, token.NoPos, len(a)+len(b), "plain store called in: %v; init-caching store called in: %v", a, b)
+}
+
+// checkTeardownWheneverAgentsExist (C05, C09): with extensions registered the teardown notifies and, at their deadline,
+// kills them - whether or not the runtime of this generation was ever started (a timeout while extensions are still
+// registering, a runtime that failed to launch). The graceful branch depends on the number of agents only.
+func checkTeardownWheneverAgentsExist(c *report.Ctx) {
+	f := fn(c, "L/rapid", "(*shutdownContext).shutdown")
+	if f == nil {
+		return
+	}
+	facts := an.NewFacts(f)
+	n := 0
+	var extra []string
+	pos := fpos(f)
+	for _, call := range an.CallsTo(f, shutT+".shutdownAgents") {
+		n++
+		for _, ft := range facts.At(call.Block()) {
+			calls, fields := condMentions(ft.Cond, facts)
+			for _, cl := range calls {
+				if cl != "L/core.RegistrationService.CountAgents" {
+					extra = append(extra, cl)
+					pos = an.InstrPos(call)
+				}
+			}
+			for _, fl := range fields {
+				extra = append(extra, fl)
+				pos = an.InstrPos(call)
+			}
+		}
+	}
+	c.Check("R-GUARD", an.FuncName(f)+"/agents-torn-down-whenever-there-are-agents", "the extensions' teardown is reached whenever extensions are registered, on that condition alone (not on the runtime having been started)", n == 1 && len(extra) == 0, pos, n, "shutdownAgents sites: %d; other conditions: %v", n, uniq(extra))
+}
+
+// checkAgentDelegatorsPassArgumentsOn (C13, C15): ExternalAgent/InternalAgent methods lock and delegate to the
+// current state; what they are given is what the state gets. (An error wrapped on the way is no longer the error the
+// state classifies by identity: PermissionDenied / TooManyExtensions become UnknownError.)
+func checkAgentDelegatorsPassArgumentsOn(c *report.Ctx) {
+	n := 0
+	var bad []string
+	pos := token.NoPos
+	for _, T := range []string{"ExternalAgent", "InternalAgent"} {
+		for _, m := range methodsOf(c, "L/core", T) {
+			for _, call := range an.Calls(m, func(string) bool { return true }) {
+				cm := call.Common()
+				if !cm.IsInvoke() || !loadOf("L/core."+T, "currentState")(cm.Value) {
+					continue
+				}
+				n++
+				for _, a := range cm.Args {
+					if _, isP := an.Strip(a, false).(*ssa.Parameter); !isP {
+						if _, isC := a.(*ssa.Const); isC {
+							continue
+						}
+						bad = append(bad, an.FuncName(m)+" -> "+cm.Method.Name())
+						if pos == token.NoPos {
+							pos = an.InstrPos(call)
+						}
+					}
+				}
+			}
+		}
+	}
+	c.Check("R-WIRE", "L/core/agent-delegators-pass-arguments-unchanged", "every call an agent delegates to its current state carries the method's own parameters (no wrapping, no substitution)", len(bad) == 0 && n >= 10, pos, n, "delegating calls: %d; with an argument that is not a parameter: %v", n, uniq(bad))
+}
+
+// checkSenderClosesItsChannel (C07): a send on a closed channel panics the process. A function that makes a channel
+// and starts a goroutine that sends on it never closes that channel itself (neither at once nor deferred).
+func checkSenderClosesItsChannel(c *report.Ctx) {
+	n := 0
+	var bad []string
+	pos := token.NoPos
+	for _, f := range repoFuncs(c) {
+		an.AllInstrs(f, func(in ssa.Instruction) {
+			mk, ok := in.(*ssa.MakeChan)
+			if !ok {
+				return
+			}
+			// cells the channel is kept in (captured variables)
+			holds := map[ssa.Value]bool{mk: true}
+			for _, ref := range *mk.Referrers() {
+				if st, isSt := ref.(*ssa.Store); isSt && st.Val == ssa.Value(mk) {
+					holds[st.Addr] = true
+				}
+			}
+			isCh := func(v ssa.Value) bool {
+				v = an.Strip(v, true)
+				if holds[v] {
+					return true
+				}
+				if u, isU := v.(*ssa.UnOp); isU && u.Op == token.MUL && holds[u.X] {
+					return true
+				}
+				return false
+			}
+			// goroutines of f that send on it
+			sends := false
+			an.AllInstrs(f, func(g ssa.Instruction) {
+				gi, isGo := g.(*ssa.Go)
+				if !isGo {
+					return
+				}
+				cl := goClosure(gi)
+				mc, _ := gi.Call.Value.(*ssa.MakeClosure)
+				if cl == nil || mc == nil {
+					return
+				}
+				bound := map[*ssa.FreeVar]bool{}
+				for i, b := range mc.Bindings {
+					if holds[b] && i < len(cl.FreeVars) {
+						bound[cl.FreeVars[i]] = true
+					}
+				}
+				an.AllInstrs(cl, func(x ssa.Instruction) {
+					if s, isSend := x.(*ssa.Send); isSend {
+						v := an.Strip(s.Chan, true)
+						if u, isU := v.(*ssa.UnOp); isU {
+							if fv, isFV := u.X.(*ssa.FreeVar); isFV && bound[fv] {
+								sends = true
+							}
+						}
+						if fv, isFV := v.(*ssa.FreeVar); isFV && bound[fv] {
+							sends = true
+						}
+					}
+				})
+			})
+			if !sends {
+				return
+			}
+			n++
+			an.AllInstrs(f, func(x ssa.Instruction) {
+				call, isCall := x.(ssa.CallInstruction)
+				if !isCall || an.Callee(call) != "builtin.close" || len(call.Common().Args) == 0 {
+					return
+				}
+				if isCh(call.Common().Args[0]) {
+					bad = append(bad, an.FuncName(f))
+					if pos == token.NoPos {
+						pos = an.InstrPos(call)
+					}
+				}
+			})
+		})
+	}
+	c.Check("R-WHO", "channels/closed-by-the-sender-only", "a function that hands a channel to a goroutine which sends on it does not close that channel itself (the late send would panic the emulator)", len(bad) == 0 && n >= 1, pos, n, "channels made and sent on by a goroutine of the same function: %d; closed by the maker in: %v", n, uniq(bad))
+}
+
+// checkRestoreTimeoutCancelsAtOnce (C18): when the restore hook runs out of time the init flow is cancelled there and
+// then (a plain call on the deadline path) and the function returns without waiting for the waiter goroutine, which
+// only that cancellation releases.
+func checkRestoreTimeoutCancelsAtOnce(c *report.Ctx) {
+	f := fn(c, "L/core", "(*initFlowSynchronizationImpl).AwaitRuntimeReadyWithDeadline")
+	if f == nil {
+		return
+	}
+	plain, other := 0, 0
+	for _, call := range an.CallsTo(f, "L/core.initFlowSynchronizationImpl.CancelWithError") {
+		if _, isCall := call.(*ssa.Call); isCall {
+			plain++
+		} else {
+			other++
+		}
+	}
+	// receives outside the select: a wait for the goroutine
+	recvs := 0
+	an.AllInstrs(f, func(in ssa.Instruction) {
+		if u, ok := in.(*ssa.UnOp); ok && u.Op == token.ARROW {
+			recvs++
+		}
+	})
+	c.Check("R-ORDER", an.FuncName(f)+"/timeout-cancels-at-once", "on the deadline path the init flow is cancelled by a plain call (not a deferred one) and the function waits for nothing afterwards", plain == 1 && other == 0 && recvs == 0, fpos(f), 1, "plain CancelWithError calls: %d, deferred/async: %d; receives outside the select: %d", plain, other, recvs)
+}
+
+// checkDirectInvokePayloadIsTheBody (C01, C17): the event of a direct invoke is the request body as it arrives; the
+// per-request MaxPayloadSize bounds the RESPONSE, not the event.
+func checkDirectInvokePayloadIsTheBody(c *report.Ctx) {
+	f := fn(c, "L/core/directinvoke", "ReceiveDirectInvoke")
+	if f == nil {
+		return
+	}
+	n, ok := 0, true
+	pos := fpos(f)
+	for _, st := range an.Stores(f, "L/interop.Invoke", "Payload") {
+		n++
+		if !an.IsFieldLoad(an.Strip(st.Val, true), "net/http.Request", "Body") {
+			ok = false
+			pos = st.Pos()
+		}
+	}
+	c.Check("R-WIRE", an.FuncName(f)+"/payload-is-the-request-body", "the invoke record's Payload is the request's Body itself (no limiting or re-reading wrapper)", ok && n == 1, pos, n, "Payload stores: %d, each the request body: %v", n, ok)
+}
+
+// checkNoContentLengthAnnounced (C17, C14): replies carry trailers (End-Of-Response, error type/body), which only
+// travel with chunked encoding; a Content-Length on the reply switches that off, and one announced before a response
+// was judged would outlive its refusal. Nothing in the repository sets that header.
+func checkNoContentLengthAnnounced(c *report.Ctx) {
+	n := 0
+	var bad []string
+	pos := token.NoPos
+	for _, f := range repoFuncs(c) {
+		for _, call := range an.CallsTo(f, "net/http.Header.Set", "net/http.Header.Add") {
+			args := call.Common().Args
+			if len(args) < 2 {
+				continue
+			}
+			n++
+			if s, isC := an.ConstString(args[len(args)-2]); isC && strings.EqualFold(s, "Content-Length") {
+				bad = append(bad, an.FuncName(f))
+				if pos == token.NoPos {
+					pos = an.InstrPos(call)
+				}
+			}
+		}
+	}
+	c.Check("R-CONST", "headers/no-content-length-announced", "no reply of the emulator announces a Content-Length (trailers need chunked encoding; a length announced for a refused body would be forwarded with the substitute error)", len(bad) == 0 && n >= 10, pos, n, "Header.Set/Add sites: %d; with key Content-Length in: %v", n, uniq(bad))
+}
+
+// checkChunksBoundedByChunkSize (C17): ChunkIterator.Next hands out buf[begin:end] with end = min(offset+chunkSize,
+// len(buf)) and nothing added to it: a chunk longer than the bucket's capacity is refused by the throttler and the
+// response comes out truncated.
+func checkChunksBoundedByChunkSize(c *report.Ctx) {
+	f := fn(c, "L/core/bandwidthlimiter", "(*ChunkIterator).Next")
+	if f == nil {
+		return
+	}
+	n, ok := 0, true
+	pos := fpos(f)
+	an.AllInstrs(f, func(in ssa.Instruction) {
+		sl, isSl := in.(*ssa.Slice)
+		if !isSl {
+			return
+		}
+		n++
+		good := false
+		if sl.High != nil {
+			if cl, _ := an.CallOf(sl.High); cl != nil && (strings.HasSuffix(an.Callee(cl), ".min") || an.Callee(cl) == "builtin.min") {
+				good = true
+			}
+		}
+		if !good {
+			ok = false
+			pos = sl.Pos()
+		}
+	})
+	c.Check("R-WIRE", an.FuncName(f)+"/chunk-ends-at-the-minimum", "a chunk ends at min(offset+chunkSize, len(buf)) exactly (never beyond the chunk size)", ok && n == 1, pos, n, "slice expressions: %d; upper bound is the minimum itself: %v", n, ok)
+}
+
+// checkTooLargeMadeBySinkOnly (C14, C17): whether a response is too large is judged in one place, on the bytes
+// actually read and against the limit in force (the per-request one for direct invokes): the reply sink. No handler
+// makes an ErrorResponseTooLarge of its own from an announced length.
+func checkTooLargeMadeBySinkOnly(c *report.Ctx) {
+	var who []string
+	for _, f := range repoFuncs(c) {
+		an.AllInstrs(f, func(in ssa.Instruction) {
+			if a, ok := in.(*ssa.Alloc); ok {
+				if p, isP := a.Type().(*types.Pointer); isP && an.TypeName(p.Elem()) == "L/interop.ErrorResponseTooLarge" {
+					who = append(who, stripAnon(an.FuncName(f)))
+				}
+			}
+		})
+	}
+	who = uniq(who)
+	c.Check("R-WHO", "L/interop.ErrorResponseTooLarge/made-by-the-reply-sink-only", "an oversize refusal is made by the reply sink alone (on the bytes read, against the limit in force)", strings.Join(who, ",") == "L/rapidcore.Server.sendResponseUnsafe", token.NoPos, len(who), "ErrorResponseTooLarge constructed in: %v", who)
+}
+
+// checkRuntimeAPIServerPlain (C20, C12): the Runtime API's http.Server is configured with its handler and the
+// connection context and nothing else: no header size limit (the X-Ray cause travels in a header and is shortened,
+// not refused), no read/write/idle timeouts (a /next may stay parked for any time).
+func checkRuntimeAPIServerPlain(c *report.Ctx) {
+	f := fn(c, "L/rapi", "NewServer")
+	if f == nil {
+		return
+	}
+	var fields []string
+	for _, st := range an.Stores(f, "net/http.Server", "") {
+		if fr, ok := an.AsField(st.Addr); ok {
+			fields = append(fields, fr.Field)
+		}
+	}
+	sort.Strings(fields)
+	c.Check("R-SHAPE", an.FuncName(f)+"/plain-http-server", "the Runtime API server sets Handler and ConnContext only (no header-size limit, no timeouts)", strings.Join(fields, ",") == "ConnContext,Handler", fpos(f), len(fields), "http.Server fields set: %v", fields)
+}
+
+// checkMiddlewareLeavesHeadersAlone (C13): middleware runs in front of every handler; the identifier and the
+// authorization token a handler reads are the ones the client sent. No middleware stores into a header value list
+// (a "redacted copy" made by copying the map shares the value slices with the request).
+func checkMiddlewareLeavesHeadersAlone(c *report.Ctx) {
+	n := 0
+	var bad []string
+	pos := token.NoPos
+	all := append([]*ssa.Function(nil), repoFuncs(c)...)
+	for g := range c.P.Absorbed {
+		all = append(all, g)
+	}
+	sort.Slice(all, func(i, j int) bool { return all[i].String() < all[j].String() })
+	for _, f := range all {
+		top := f
+		for top.Parent() != nil {
+			top = top.Parent()
+		}
+		if top.Pkg == nil || load.Abbrev(top.Pkg.Pkg.Path()) != "L/rapi/middleware" {
+			continue
+		}
+		n++
+		an.AllInstrs(f, func(in ssa.Instruction) {
+			st, ok := in.(*ssa.Store)
+			if !ok {
+				return
+			}
+			ia, isIA := st.Addr.(*ssa.IndexAddr)
+			if !isIA {
+				return
+			}
+			if sl, isSl := ia.X.Type().Underlying().(*types.Slice); !isSl || sl.Elem().String() != "string" {
+				return
+			}
+			bad = append(bad, an.FuncName(f))
+			if pos == token.NoPos {
+				pos = st.Pos()
+			}
+		})
+	}
+	c.Check("R-NOEFFECT", "L/rapi/middleware/writes-no-header-value", "no middleware stores into an element of a []string (header value lists are shared with the request the handlers read)", len(bad) == 0 && n >= 5, pos, n, "middleware functions: %d; storing into string slices: %v", n, uniq(bad))
+}
